@@ -74,7 +74,7 @@ func strictlyAscendingPositive(dates []int) bool {
 }
 
 // phases every run set contains explicitly: 0 and the neighbours of the default 80 and of the period 360
-var boundaryPhases = []int{0, 1, 79, 80, 81, 359, 360, 361, -1, -360, 720}
+var boundaryPhases = []int{0, 1, 79, 80, 81, 200, 359, 360, 361, -1, -360, 720}
 
 func c20(args []string) {
 	fs := flag.NewFlagSet("c20", flag.ExitOnError)
@@ -389,7 +389,7 @@ func readGwFile(work string, args []string, g *hermes.GlobalVarsMain) (rows []gw
 }
 
 // runInSession: one batch line in the given (shared) session — as hermes2go does for the lines of a batch file
-func runInSession(session *hermes.HermesSession, workdir string, args []string, logID string) runResult {
+func c20RunInSession(session *hermes.HermesSession, workdir string, args []string, logID string) runResult {
 	out := make(chan *hermes.RunReturn, 1)
 	logs := make(chan string, 1000)
 	done := make(chan struct{})
@@ -415,14 +415,30 @@ func c20TraceLine(work, line string, lineNo int, session *hermes.HermesSession) 
 	c20SetConfigPhase(work, line)
 	runArgs, confPhase, havePhase := c20Meta(line)
 	// "@gw=series" / "@gw=polygon": the CONFIGURED groundwater source of the run (GroundWaterFrom of its config.yml)
+	// "@gw=soil:<level>": static level of the soil file's groundwater column; "@poly=<GH>,<GL>": the polygon file's levels;
+	// "@expect=error:<text>": the run must end with a run error containing the text
 	expected, haveExpected := hermes.Soilfile, false
+	soilLevel, polyGH, polyGL, havePoly, expectErr := 0.0, 0, 0, false, ""
 	for _, t := range splitArgs(line) {
-		if t == "@gw=series" {
+		switch {
+		case t == "@gw=series":
 			expected, haveExpected = hermes.GWTimeSeries, true
-		} else if t == "@gw=polygon" {
+		case t == "@gw=polygon":
 			expected, haveExpected = hermes.Polygonfile, true
+		case strings.HasPrefix(t, "@gw=soil:"):
+			expected, haveExpected = hermes.Soilfile, true
+			soilLevel, _ = strconv.ParseFloat(t[len("@gw=soil:"):], 64)
+		case strings.HasPrefix(t, "@poly="):
+			if p := strings.Split(t[len("@poly="):], ","); len(p) == 2 {
+				polyGH, _ = strconv.Atoi(p[0])
+				polyGL, _ = strconv.Atoi(p[1])
+				havePoly = true
+			}
+		case strings.HasPrefix(t, "@expect=error:"):
+			expectErr = t[len("@expect=error:"):]
 		}
 	}
+	soilFails, polyFails := 0, 0
 	sourceFails := 0
 	var fileRows []gwRow
 	fileID := ""
@@ -502,12 +518,24 @@ func c20TraceLine(work, line string, lineNo int, session *hermes.HermesSession) 
 			}
 		default:
 			from = "soilfile"
+			if haveExpected && g.GRW != soilLevel {
+				if soilFails == 0 {
+					oracleFail("gw-soilfile:traced-line-%d:not-the-soil-file-level zeit=%d grw=%v soil file groundwater column=%v", lineNo, zeit, g.GRW, soilLevel)
+				}
+				soilFails++
+			}
+		}
+		if mode == hermes.Polygonfile && havePoly && (g.GRHI != polyGH || g.GRLO != polyGL) {
+			if polyFails == 0 {
+				oracleFail("gw-polygon-levels:traced-line-%d:not-the-polygon-file-levels zeit=%d GH=%d GL=%d file: GH=%d GL=%d", lineNo, zeit, g.GRHI, g.GRLO, polyGH, polyGL)
+			}
+			polyFails++
 		}
 		first = false
 	}
 	var res runResult
 	if session != nil {
-		res = runInSession(session, work, runArgs, fmt.Sprintf("[%d]", lineNo))
+		res = c20RunInSession(session, work, runArgs, fmt.Sprintf("[%d]", lineNo))
 	} else {
 		res = runProject(work, runArgs)
 	}
@@ -521,7 +549,7 @@ func c20TraceLine(work, line string, lineNo int, session *hermes.HermesSession) 
 			"id": fileID, "row_ids": ids, "row_dates": rd, "row_levels": hxs(rl), "stamps": stamps, "stamp_vals": hxs(svals)})
 	}
 	o := jobj{"k": "run", "line": lineNo, "success": res.Success, "err": res.Err, "days": days, "from": from, "source_mismatch_days": sourceFails,
-		"shared_session": session != nil}
+		"shared_session": session != nil, "soil_level_mismatch_days": soilFails, "polygon_level_mismatch_days": polyFails, "expect_error": expectErr}
 	if days > 0 {
 		o["min"], o["max"] = minL, maxL
 	}
